@@ -1,9 +1,14 @@
 #!/bin/bash
-# usage: seedtest.sh <ID> <patch> [tier]  -- applies a seeded change to /repo, runs the check, reverts.
+# usage: seedtest.sh <ID> <patch> [tier]
+# Runs the check of property <ID> against a scratch worktree of /repo with the seeded change applied
+# (VERIF_REPO), writing evidence/replays to a scratch directory (VERIF_OUT): /repo and /verif/evidence
+# are never touched. rc=1 means the check reported a violation (caught), 0 missed, 2 inconclusive.
 id=$1; patch=$2; tier=${3:-quick}
-git -C /repo status --short | grep -q . && { echo "repo not clean"; exit 3; }
-git -C /repo apply "$patch" || exit 3
-python3 /verif/check.py $id --tier $tier 2>&1 | grep -v "^KNOWN-FINDING" | cut -c1-200 | tail -4
+wt=/tmp/seedrepo_$$
+git -C /repo worktree add --detach $wt HEAD >/dev/null 2>&1 || exit 3
+git -C $wt apply "$patch" || { git -C /repo worktree remove --force $wt; exit 3; }
+out=/tmp/seedout_$$; mkdir -p $out
+VERIF_REPO=$wt VERIF_OUT=$out python3 /verif/check.py $id --tier $tier 2>&1 | grep -v "^KNOWN-FINDING" | cut -c1-220 | tail -4
 rc=${PIPESTATUS[0]}
-git -C /repo checkout -- .
+git -C /repo worktree remove --force $wt; rm -rf $out
 echo "seedtest $id $(basename $(dirname $(dirname $patch))): rc=$rc"
